@@ -68,7 +68,40 @@ def run(ctx, V):
               "device faults incl. garbage bytes echoed through telemetry; every 4th history has a device whose setresult / temperature capture admits CR LF and which answers one plug with CR / LF inside the captured text); monitors: alive, protocol (python), and the EXTRACTED recogniser Spec.Proto on every "
               "client's raw stream (ok_prefix always; ok + one terminal line per line sent for clients served to the end). non-trivial = a simulated device "
               "received a command; distinct by (config, script)")
-    sessions = pmcheck.run_batch(ctx, V, exe, scs, ["alive", "protocol"], "c15")
+    # `node sets inside replies are well-formed host ranges`: requests that name many UNKNOWN nodes whose ranged form does not compress
+    # (209 No such nodes: <list>: the list passes 80, 256, 1024, 4096 bytes), next to the long-named configurations of the generator
+    import pmgen
+    for i, sc in enumerate(scs):
+        if i % 5 == 3:
+            k = ctx.rng.choice([30, 90, 140, 400, 1500])
+            kind = ctx.rng.choice(["odd", "words"])
+            names = ("zz[%s]" % ",".join(str(2 * j + 1) for j in range(k))) if kind == "odd" else ",".join("%s%d-x" % (pmgen.LONG_WORDS[j % 20], j) for j in range(k // 3 + 2))
+            w = ctx.rng.choice(["on", "off", "status", "cycle", "temp", "beacon"])
+            pos = C06.after_connects(sc.script)
+            sc.script[pos:pos] = [("send", 0, ("%s %s\r\n" % (w, names)).encode()), ("wait", 0)]
+            sc.requests.insert(0, dict(client=0, line="%s %s" % (w, names[:40]), word=w, targets=[], mode="unknown-long", step=pos))
+            V.count("unknown-long-list")
+
+    def mon_nodesets(sess, sc):
+        bad = []
+        for k, stream in sess.client_out.items():
+            for ln in stream.split(b"\r\n")[:-1]:
+                ln = ln[len(b"powerman> "):] if ln.startswith(b"powerman> ") else ln
+                m = re.match(rb"(209 No such nodes: |302 (?:on|off|unknown): +|306 )(.*)$", ln)
+                if not m or not m.group(2):
+                    continue
+                txt = m.group(2).decode("latin-1")
+                try:
+                    pmgen.expand(txt)
+                    okk = txt.count("[") == txt.count("]")
+                except Exception:
+                    okk = False
+                if not okk:
+                    bad.append(("node-sets", "malformed-range", "client %d: the node set of `%s...` is not a well-formed host range (%d bytes): ...%r" % (k, ln[:24].decode("latin-1"), len(txt), txt[-60:])))
+                    break
+        return bad
+    pmcheck.MONITORS["c15nodesets"] = mon_nodesets
+    sessions = pmcheck.run_batch(ctx, V, exe, scs, ["alive", "protocol", "c15nodesets"], "c15")
     streams, meta = [], {}
     for i, (sc, sess) in enumerate(zip(scs, sessions)):
         if isinstance(sess, Exception): continue
